@@ -320,6 +320,11 @@ def rule_ring(ctx, rep):
         fut = pat.loads(f, glob="defer_thread_futex")
         pat.require(fut, "%s: defer_rcu does not test defer_thread_futex" % fl)
         rep.must_pass("C13.ring", fl + ".head≺FULL≺futex", f, head_st, fut, mm.is_full, what="FULL barrier between publishing head and testing the reclaimer's futex (store→load)")
+        # ... and the test is made after *every* publication: the reclaimer may have found this queue empty and gone to sleep because of another,
+        # since-drained, queue - or be between its emptiness check and its sleep - whatever this thread's own queue held before; a wake-up
+        # made conditional on a local snapshot (queue was empty, function changed, ...) leaves the entry pending with the reclaimer asleep
+        rep.must_pass("C13.ring", fl + ".publish⇒wake-test", f, head_st, None, lambda i: i in fut, to_exit=True,
+                      what="every path from publishing head to the return of defer_rcu tests the reclaimer's futex (wake_up_defer is unconditional)")
         m = ctx.mod(F.lib, "perfn")
         d = m.fn("rcu_defer_barrier_queue")
         rep.touch(d)
